@@ -1,7 +1,11 @@
 import IbModel.Util.Wire
 import IbModel.Driver.PipeParse
-/-! Driver handlers for C03: `PLAN` (pass-by-pass shapes on synthetic chains), `PLANX` (execution of
-    literal vs optimised synthetic chains), `EXPLAIN` (node kinds of the optimised builder chain). -/
+import IbModel.Model.PlannerExplain
+import IbModel.Model.PlanSynth
+/-! Driver handlers for C03: `PLAN` (pass-by-pass shapes AND reported decisions on synthetic chains, `build_plan`'s
+    chain, decisions and `explain()`), `PLANX` / `LIFTNEG` (execution of literal vs optimised synthetic chains, and of
+    `run_collect` on them), `EXPLAIN` (plan + `explain()` of builder programs), `PARTS` (partition suggestion and the
+    partition count `collect_par(None, None)` uses). -/
 namespace IB.D03
 open IB IB.Wire IB.PipeParse
 
@@ -41,26 +45,54 @@ def op? (s : String) : Option (DynOp Part) :=
     | _, _ => none
   | _ => none
 
-def node? : List String → Option (Node Part)
+def fanoutTok? (s : String) : Option (Option Nat) :=
+  if s == "none" then some none else (parseNat? s).map some
+
+/-- nodes allowed inside a co-group side (`COGN` = a nested co-group) -/
+def subNode? : List String → Option (Node Part)
   | ["SRC", rows] => (rowsOf? rows).map vecSource
   | ["ST", ops] => ((ops.splitOn ";").mapM op?).map Node.stateless
   | ["GBK"] => some gbkNode
   | ["CVL"] => some (combineValuesLiftedNode Comb.sum.toCombiner)
   | ["CV"] => some (combineValuesNode Comb.sum.toCombiner)
+  | ["CVB"] => some (combineValuesLiftedNode badSum)
+  | ["CG", fo] => (fanoutTok? fo).map (combineGlobalNode pairSum)
   | ["MAT", rows] => (rowsOf? rows).map Node.materialized
+  | ["COGN"] => some (.coGroup [] [] List.flatten List.flatten cogExec)
   | _ => none
 
-/-- split a token list at `|` -/
-def splitBar : List String → List (List String)
+/-- split a token list at every `sep` -/
+def splitTok (sep : String) : List String → List (List String)
   | [] => [[]]
   | t :: ts =>
-    match splitBar ts with
-    | g :: gs => if t == "|" then [] :: g :: gs else (t :: g) :: gs
+    match splitTok sep ts with
+    | g :: gs => if t == sep then [] :: g :: gs else (t :: g) :: gs
     | [] => [[t]]
 
-def chain? (toks : List String) : Option (List (Node Part)) := (splitBar toks).mapM node?
+/-- `< n & n & … >`: the tokens between the brackets -/
+def subChain? (toks : List String) : Option (List (Node Part)) :=
+  if toks.isEmpty then some [] else (splitTok "&" toks).mapM subNode?
+
+/-- `COG < … > < … >` -/
+def cog? (toks : List String) : Option (Node Part) :=
+  match splitTok ">" toks with
+  | [l, r, []] =>
+    match l, r with
+    | "<" :: lt, "<" :: rt => do
+      let lc ← subChain? lt
+      let rc ← subChain? rt
+      pure (.coGroup lc rc List.flatten List.flatten cogExec)
+    | _, _ => none
+  | _ => none
+
+def node? : List String → Option (Node Part)
+  | "COG" :: rest => cog? rest
+  | toks => subNode? toks
+
+def chain? (toks : List String) : Option (List (Node Part)) := (splitTok "|" toks).mapM node?
 
 def shapeOf (c : List (Node Part)) : String :=
+  if c.isEmpty then "-" else
   ",".intercalate (c.map (fun n => match n with
     | .source .. => "SRC"
     | .stateless ops => "ST[" ++ ";".intercalate (ops.map (·.label)) ++ "]"
@@ -70,15 +102,24 @@ def shapeOf (c : List (Node Part)) : String :=
     | .combineGlobal .. => "CG"
     | .materialized _ => "MAT"))
 
-def handlePlan (toks : List String) : String :=
-  match chain? toks with
-  | none => "BAD-OP"
-  | some c =>
-    let f := fuse c
-    let r := reorder f
-    let l := liftGbk r
-    let d := dropMid l
-    s!"fuse={shapeOf f} reorder={shapeOf r} lift={shapeOf l} drop={shapeOf d}"
+def optDec (d : Option Decision) : String := renderDecisions d.toList
+
+def cpus? (tok : String) : Option Nat :=
+  if tok.startsWith "cpus=" then parseNat? (tok.drop 5).toString else none
+
+/-- `PLAN cpus=<n> <chain>`: every pass alone (chain + reported decision), then `build_plan` and its `explain()` -/
+def handlePlan : List String → String
+  | c0 :: toks =>
+    match cpus? c0, chain? toks with
+    | some cpus, some c =>
+      let f := fuseTracked c
+      let r := reorderTracked f.1
+      let l := liftTracked r.1
+      let d := dropMidTracked l.1
+      let plan := buildPlan cpus c
+      s!"fuse={shapeOf f.1} reorder={shapeOf r.1} lift={shapeOf l.1} drop={shapeOf d.1} fdec={optDec f.2} rdec={renderDecisions r.2} ldec={optDec l.2} ddec={optDec d.2} plan={shapeOf plan.chain} {plan.explain.render}"
+    | _, _ => "BAD-OP"
+  | _ => "BAD-OP"
 
 def insPair (x : Int × Int) : List (Int × Int) → List (Int × Int)
   | [] => [x]
@@ -91,23 +132,49 @@ def execAnswer (r : M Part) : String :=
     else
       let ps := (rows.map (fun r => (r.key.toInt, r.value.toInt))).foldl (fun acc x => insPair x acc) []
       ",".intercalate (ps.map (fun p => s!"{p.1}:{p.2}"))
-  | .error .unexpectedSource => "ERR:unexpected_additional_source/materialized"
-  | .error _ => "PANIC"
+  | .error .unexpectedSource => "ERR:unexpected-source"
+  | .error .noSource => "ERR:no-source"
+  | .error .nestedCoGroup => "ERR:nested-cogroup"
+  | .error .nonTermination => "HANG"
+  | .error .emptyBuf => "PANIC"
 
+/-- `PLANX cpus=<n> parts=<n> <chain>`: literal, optimised (the four passes composed), optimised in parallel, and
+    `run_collect` (which plans by itself) sequentially and with `parts` partitions -/
 def handlePlanx : List String → String
-  | p :: toks =>
-    match parseNat? (p.drop 6).toString, chain? toks with
-    | some parts, some c =>
-      s!"lit={execAnswer (execSeq c)} opt={execAnswer (execSeq (optimise c))} par={execAnswer (execPar List.flatten (optimise c) parts)}"
+  | c0 :: p :: toks =>
+    match cpus? c0, parseNat? (p.drop 6).toString, chain? toks with
+    | some cpus, some parts, some c =>
+      s!"lit={execAnswer (execSeq c)} opt={execAnswer (execSeq (optimise c))} par={execAnswer (execPar List.flatten (optimise c) parts)} run={execAnswer (runCollect List.flatten cpus .sequential c)} runpar={execAnswer (runCollect List.flatten cpus (.parallel (some parts)) c)} ran={",".intercalate ((buildPlan cpus c).chain.map Node.kind)}"
+    | _, _, _ => "BAD-OP"
+  | _ => "BAD-OP"
+
+/-- `EXPLAIN cpus=<n> <program>`: node kinds of the chain the runner executes (both modes plan the same chain),
+    then `explain()` -/
+def handleExplain : List String → String
+  | c0 :: toks =>
+    match cpus? c0, parseReq toks with
+    | some cpus, some q =>
+      let plan := buildPlan cpus (litChain q.src q.steps)
+      let kinds := ",".intercalate (plan.chain.map Node.kind)
+      s!"ran={kinds} ranpar={kinds} {plan.explain.render}"
     | _, _ => "BAD-OP"
   | _ => "BAD-OP"
 
-def handleExplain (toks : List String) : String :=
-  match parseReq toks with
-  | none => "BAD-OP"
-  | some q => ",".intercalate ((optimise (litChain q.src q.steps)).map Node.kind)
+/-- `PARTS cpus=<n> len=<n|none> obs=<0|1>`: `suggest_partitions` and (when the harness can observe it) the partition
+    count `collect_par(None, None)` hands to the parallel engine -/
+def handleParts : List String → String
+  | [c0, l, o] =>
+    match cpus? c0, (if l.startsWith "len=" then fanoutTok? (l.drop 4).toString else none) with
+    | some cpus, some len =>
+      let sug := suggestPartitions (max cpus 2) len
+      if o == "obs=1" then s!"suggested={optNat sug} used={chosenPartitions cpus none sug}"
+      else if o == "obs=0" then s!"suggested={optNat sug} used=-"
+      else "BAD-OP"
+    | _, _ => "BAD-OP"
+  | _ => "BAD-OP"
 
 def handlers : List (String × (List String → String)) :=
-  [("PLAN", handlePlan), ("PLANX", handlePlanx), ("EXPLAIN", handleExplain)]
+  [("PLAN", handlePlan), ("PLANX", handlePlanx), ("LIFTNEG", handlePlanx), ("EXPLAIN", handleExplain),
+   ("PARTS", handleParts)]
 
 end IB.D03
